@@ -25,10 +25,16 @@ CFG = {'streams': [{'name': 'C08',
                 'store valuation + graph operations; renumbering of the laid-out operations by induction on the permutation; graph operations '
                 'commute with renumberings; deferred_ops_any_order. stdlib_call_ok_partial: the hypothesis on called functions holds for every '
                 'stdlib function but node/format/join. Earlier theorems kept: scoped-variable forcing is permutation invariant; deferred edge and '
-                'attribute operations give the same graph in every order. Direct stream: every permutation on the implementation.',
- 'partial': ['lazy_block_order_iso (whole-run invariance up to graph isomorphism) is proved on the fragment: no scoped variables (blocks do not '
-             'communicate; STEP 4 with scoped-variable cells is not done: a reader before its definer makes the store non-acyclic by index and sets may '
-             'mix nodes of several blocks, so new forcing lemmas and an isomorphism up to re-sorting of sets are needed), called functions graph-pure and equivariant under '
+                'attribute operations give the same graph in every order. WITH SCOPED VARIABLES (lazy_block_order_iso_scoped_partial, '
+                'lazy_block_order_fail_scoped_partial, Proofs/ScPerm*.v): the same whole-run statement for blocks that communicate through scoped '
+                'variables - definitions let @cap.x = e / node @cap.x, reads @cap.x in deferred positions, the reader may precede the definer; '
+                'reference evaluator over a static environment instead of the by-index acyclic store (lazy_eval_sound_scoped_partial, '
+                'lazy_eval_adequate_scoped_partial), renumbering monotone per block, adjacent exchanges of blocks (lazy_block_shift_scoped_partial). '
+                'Direct stream: every permutation on the implementation.',
+ 'partial': ['lazy_block_order_iso (whole-run invariance up to graph isomorphism) is proved on the fragment: scoped variables only as definitions with a capture as scope and a '
+             'scoped-free value and as reads in deferred positions (node/source/sink of attr and edge statements, values of non-shorthand attributes, '
+             'print arguments, list literals of these); NOT covered: scoped reads inside thunks (values of local variables or of other scoped definitions), '
+             'as call arguments or set elements (values would mix nodes of several blocks: isomorphism up to re-sorting of sets), definitions with non-capture scopes; called functions graph-pure and equivariant under '
              'order-preserving renamings (all stdlib functions except node, format, join), globals only mention nodes of a closed initial graph, '
              'no debug attributes (with a location attribute an edge created by two stanzas keeps the attribute of the statement evaluated first: '
              'the property as stated fails there), no cancellation budget. The fuel needed by the permuted run may be larger (a thunk may be forced '
